@@ -117,6 +117,24 @@ def build_case(r, nrefs, nfiles, mode):
             "slots": slots, "file_order": files, "nrefs": nrefs}
 
 
+def corpus_cases(pid):
+    """minimised regression cases of corpus/<pid> (full case dictionaries), run before the generated ones"""
+    import os
+    d = os.path.join(core.VERIF, "corpus", pid)
+    out = []
+    for f in sorted(os.listdir(d)) if os.path.isdir(d) else []:
+        if f.endswith(".json"):
+            c = json.load(open(os.path.join(d, f)))
+            if "layout" not in c:
+                continue
+            c["slots"] = [tuple(x) for x in c["slots"]]
+            c["kind"] = "corpus"
+            if c.get("query"):
+                set_query(c)
+            out.append(c)
+    return out
+
+
 def file_order_from_log(case, log):
     """Order in which the resolver visits the models, read off the first provider calls."""
     order = []
@@ -140,7 +158,31 @@ def coq_expr(case, order):
             core.coq_bool(case["table"][str(i)]["never"])) for i in xs]))
     delays = core.coq_list(["(%d, %d)" % (int(i), t["delay"]) for i, t in case["table"].items() if t["delay"]])
     slots = core.coq_list(["(%d, %s)" % (s, core.coq_bool(m)) for s, m, _ in case["slots"]])
+    if case.get("where"):
+        return "show_out %s (qload (snap_ans (delay_of %s)) %s)" % (slots, delays, core.coq_list(models))
     return "show_out %s (load (table_ans (delay_of %s)) %s)" % (slots, delays, core.coq_list(models))
+
+
+def set_query(case):
+    """Switch a case to query mode: the provider asks needs_to_be_resolved(object, attribute) for every awaited
+    reference.  That question is per (object, attribute), so waiting for one element of a list means waiting for
+    the whole list: the table's deps are closed under 'same slot'."""
+    by_slot = {}
+    for i, l in case["layout"].items():
+        by_slot.setdefault(l["slot"], []).append(int(i))
+    for i, t in case["table"].items():
+        deps = set()
+        for d in t["deps"]:
+            deps.update(by_slot[case["layout"][str(d)]["slot"]])
+        t["deps"] = sorted(deps)
+    keys = {s: (key, many) for s, many, key in case["slots"]}
+    where = {}
+    for i, l in case["layout"].items():
+        key, many = keys[l["slot"]]
+        fn, hname, pi = key.split("/")
+        where[i] = [fn, hname, int(pi), "many" if many else "single"]
+    case["where"] = where
+    return case
 
 
 def impl_canon(case, o):
@@ -175,7 +217,7 @@ def lfp(case):
 def run_cases(chk, cases):
     chunks = [cases[i::core.NPROC] for i in range(core.NPROC)]
     chunks = [c for c in chunks if c]
-    outs = core.run_impl_parallel("c08", [{"cases": [{"files": c["files"], "main": c["main"], "table": c["table"]} for c in ch]} for ch in chunks])
+    outs = core.run_impl_parallel("c08", [{"cases": [{"files": c["files"], "main": c["main"], "table": c["table"], "where": c.get("where")} for c in ch]} for ch in chunks])
     impl = {}
     for ch, o in zip(chunks, outs):
         for c, x in zip(ch, o):
